@@ -47,6 +47,13 @@ class C15(Plugin):
     assumptions = ["pydantic (frozen models, JSON, validation errors) and csv / file I/O are runtime: exercised, not modelled",
                    "hash: only agreement between the classes is observed; the theorem is stated for an arbitrary hash of the (prefix, identifier) pair"]
 
+    def known_matchers(self):
+        def curie_longer_than_csv_field_limit(case, obs):
+            p, i, _, (p2, i2), (p3, i3) = case[:5]
+            return any(len(a) + 1 + len(b) > 131072 for a, b in ((p, i), (p2, i2), (p3, i3)))
+
+        return {"curie_longer_than_csv_field_limit": curie_longer_than_csv_field_limit}
+
     def generate(self, rng, n):
         for _ in range(n):
             p, p2, p3 = (rng.choice([x for x in PREF if ":" not in x]) for _ in range(3))
